@@ -25,12 +25,14 @@ const (
 	KNil
 	KNonNil
 	KSym // a symbolic, non-nil identity (e.g. "the user layer value")
+	KPtr // pointer to a tracked local allocation
 )
 
 type AV struct {
 	K AVKind
 	C constant.Value
 	S string
+	P ssa.Value
 }
 
 func (a AV) String() string {
@@ -43,6 +45,8 @@ func (a AV) String() string {
 		return "nonnil"
 	case KSym:
 		return "sym:" + a.S
+	case KPtr:
+		return "ptr:" + a.P.Name()
 	}
 	return "T"
 }
@@ -71,6 +75,8 @@ type Interp struct {
 	Outcome func(in ssa.Instruction, ev func(ssa.Value) AV) string    // "" = not an outcome
 	Inline  func(callee *ssa.Function) bool                           // evaluate these callees recursively
 	Start   ssa.Instruction                                           // nil = function entry
+	// LoadField supplies the value of a field loaded through a symbolic base
+	LoadField func(base AV, owner, field string) (AV, bool)
 	MaxStates int
 	depth   int
 	// results
@@ -209,7 +215,12 @@ func (it *Interp) eval(s *istate, v ssa.Value) AV {
 			return a
 		}
 		return AV{K: KNonNil}
-	case *ssa.Alloc, *ssa.MakeClosure, *ssa.MakeMap, *ssa.MakeChan, *ssa.MakeSlice, *ssa.Function, *ssa.FieldAddr, *ssa.IndexAddr, *ssa.Global:
+	case *ssa.Alloc:
+		if allocTrackable(x) {
+			return AV{K: KPtr, P: x}
+		}
+		return AV{K: KNonNil}
+	case *ssa.MakeClosure, *ssa.MakeMap, *ssa.MakeChan, *ssa.MakeSlice, *ssa.Function, *ssa.FieldAddr, *ssa.IndexAddr, *ssa.Global:
 		return AV{K: KNonNil}
 	}
 	return AV{}
@@ -219,7 +230,7 @@ func foldBin(op token.Token, a, b AV) AV {
 	// nil comparisons
 	if op == token.EQL || op == token.NEQ {
 		isNilA, isNilB := a.K == KNil, b.K == KNil
-		nonA, nonB := a.K == KNonNil || a.K == KSym, b.K == KNonNil || b.K == KSym
+		nonA, nonB := a.K == KNonNil || a.K == KSym || a.K == KPtr, b.K == KNonNil || b.K == KSym || b.K == KPtr
 		if a.K == KSym && b.K == KSym {
 			return avBool((a.S == b.S) == (op == token.EQL))
 		}
@@ -328,6 +339,10 @@ func (it *Interp) execBlock(s *istate) []*istate {
 		case *ssa.Store:
 			if ck, ok := localCell(x.Addr); ok {
 				s.cells[ck] = ev(x.Val)
+			} else if fa, ok := x.Addr.(*ssa.FieldAddr); ok {
+				if base := ev(fa.X); base.K == KPtr {
+					s.cells[cellKey{base.P, fa.Field}] = ev(x.Val)
+				}
 			}
 		case *ssa.UnOp:
 			var a AV
@@ -338,6 +353,15 @@ func (it *Interp) execBlock(s *istate) []*istate {
 				case token.MUL:
 					if ck, ok := localCell(x.X); ok {
 						a = s.cells[ck]
+					} else if fa, ok := x.X.(*ssa.FieldAddr); ok {
+						base := ev(fa.X)
+						if base.K == KPtr {
+							a = s.cells[cellKey{base.P, fa.Field}]
+						} else if base.K == KSym && it.LoadField != nil {
+							if v, ok := it.LoadField(base, ownerType(fa.X.Type()), fieldName(fa.X.Type(), fa.Field)); ok {
+								a = v
+							}
+						}
 					}
 				case token.NOT:
 					if bv, ok := ev(x.X).Bool(); ok {
@@ -508,4 +532,58 @@ func labelsWithMark(m map[string]map[uint32]bool, bit int) []string {
 	}
 	sort.Strings(out)
 	return out
+}
+
+var allocTrackCache = map[*ssa.Alloc]bool{}
+
+// allocTrackable: the allocation's contents can only change through stores in
+// this function: it is never passed to a call, stored elsewhere or captured.
+func allocTrackable(a *ssa.Alloc) bool {
+	if v, ok := allocTrackCache[a]; ok {
+		return v
+	}
+	seen := map[ssa.Value]bool{}
+	var safe func(v ssa.Value, depth int) bool
+	safe = func(v ssa.Value, depth int) bool {
+		if seen[v] || depth > 6 {
+			return true
+		}
+		seen[v] = true
+		refs := v.Referrers()
+		if refs == nil {
+			return true
+		}
+		for _, ref := range *refs {
+			switch r := ref.(type) {
+			case *ssa.Store:
+				if r.Val == v {
+					return false
+				}
+			case *ssa.UnOp, *ssa.DebugRef, *ssa.Return, *ssa.If:
+			case *ssa.BinOp:
+			case *ssa.Phi:
+				if !safe(r, depth+1) {
+					return false
+				}
+			case *ssa.FieldAddr:
+				for _, rr := range *r.Referrers() {
+					switch r2 := rr.(type) {
+					case *ssa.Store:
+						if r2.Val == ssa.Value(r) {
+							return false
+						}
+					case *ssa.UnOp:
+					default:
+						return false
+					}
+				}
+			default:
+				return false
+			}
+		}
+		return true
+	}
+	ok := safe(a, 0)
+	allocTrackCache[a] = ok
+	return ok
 }
